@@ -59,28 +59,21 @@ Proof. exact (conj sh_example_ok sh_example_alert). Qed.
 
 (* 1c. Crash analysis of the server's validation of the SECOND ClientHello after a
    HelloRetryRequest (nested region of _serverGetClientHello: the key_share checks; the second
-   hello does not pass through the checks of part 1 again).
-   FULL statement (false of the faithful model, see the refutation):
-       forall ch g, ncrash (HrrChChecks ch g)
-   PROVED PART: for every abstract second ClientHello and every selected group the region ends in
-   OK, a fatal alert or TLSInternalError, or crashes at the ONE listed site len:ext.client_shares#1
-   (`if not ext:` tests presence only; a key_share extension with an empty body has
-   client_shares = None).  In particular a present-but-EMPTY share vector is answered with
-   illegal_parameter and `ext.client_shares[0]` is never reached with an empty list.
-   MISSING for the full statement: that site is a genuine defect on /repo 8fbaa01 (proposed fix
-   C08-17); the witness is replayed on the live server (two-step exchange) on every run. *)
-Theorem hrr_second_hello_checks_crash_free_partial :
+   hello does not pass through the checks of part 1 again).  FULL: for every abstract second
+   ClientHello (key_share absent / empty body / EMPTY VECTOR / any shares) and every selected group
+   the region ends in OK, a fatal alert or TLSInternalError -- never in a Crash; in particular
+   `ext.client_shares[0]` is never evaluated on an empty list.
+   History: before /repo 79180d8 (= proposed fix C08-17) the statement was false at the site
+   len:ext.client_shares#1 (`if not ext:` tested presence only; an empty-body key_share has
+   client_shares = None) and the check carried the _partial/_refuted/_known_sites_reachable forms;
+   the former witness is kept as an Example and replayed (two-step exchange) on every run. *)
+Theorem hrr_second_hello_checks_crash_free :
   forall (ch : HrrChChecks.ClientHello_r) (selected_group : Z),
-    C08_Lib.crash_in hrr_ch_known_sites (HrrChChecks.HrrChChecks ch selected_group).
-Proof. exact hrr_crash_sites_l. Qed.
+    C08_Lib.ncrash (HrrChChecks.HrrChChecks ch selected_group).
+Proof. exact hrr_crash_free_l. Qed.
 
-Theorem hrr_second_hello_checks_crash_free_refuted :
-  exists ch g, C08_Lib.is_crash (HrrChChecks.HrrChChecks ch g) = true.
-Proof. exact hrr_refuted_l. Qed.
-
-Theorem hrr_second_hello_known_sites_reachable :
-  forall s, In s hrr_ch_known_sites -> exists ch g k, HrrChChecks.HrrChChecks ch g = C08_Lib.Crash k s.
-Proof. exact hrr_sites_reachable_l. Qed.
+Example hrr_second_hello_former_witness : HrrChChecks.HrrChChecks hrr_w_empty_body 23 = C08_Lib.Alert 50.
+Proof. exact hrr_former_witness. Qed.
 
 Example hrr_second_hello_examples :
   HrrChChecks.HrrChChecks (hrr_mk []) 23 = C08_Lib.Alert 109 /\
